@@ -193,16 +193,15 @@ let () =
             describe_request r;
             let indom = server_in_domain hf hp r doc in
             let shadow = has_shadow doc in
-            bump (if indom then "server_conformant_variant" else if shadow then "server_shadowing_variant" else "server_NOT_A_VARIANT");
+            bump (if indom then "server_conformant_variant" else "server_NOT_A_VARIANT");
+            if indom && shadow then bump "server_variant_with_attribute_lookalike";
             let spec = server_spec_ok hf hp path r doc call in
-            let kf = if server_kf hf hp path r doc call then "kf-c08-decl-shadows-attr" else "-" in
             (* a document that claims to be rfc_write r but is not recognised as a
                variant of it is a disagreement between the harness's serialiser and
                the specification: reported, never skipped *)
-            let agree = agree && (indom || shadow) in
-            let spec = if kf <> "-" then false else spec in
-            if agree && spec && kf = "-" then None else
-            verdict ~agree ~spec ~kf
+            let agree = agree && indom in
+            if agree && spec then None else
+            verdict ~agree ~spec ~kf:"-"
               ~detail:(Printf.sprintf "in_domain=%b shadow=%b model_call=%s rfc_read_ok=%b"
                          indom shadow (show_call (canon_call (handle_report hp path doc)))
                          (rfc_read hp doc = Some r))
